@@ -2570,6 +2570,9 @@ def optimise_quantize(op: Operation, arch, nng):
         # Guard clause - input not const or no values to quantize
         if ifm.ops[0].type != Op.Const or input_values is None:
             return op
+        # Guard clause - the folding below works with one scale per tensor (per-axis quantisation is left to the operator checks)
+        if any(tens.quantization is not None and tens.quantization.is_per_axis() for tens in (ifm, ofm)):
+            return op
 
         # Singular val in numpy array, convert to indexable array
         if input_values.ndim == 0:
